@@ -250,6 +250,21 @@ def run_ascii(ctx):
                     ctx.fail("wrong_exception", case, f"{r!r}")
                 else:
                     ctx.count("rejected_ok")
+    # PAIRS of characters outside the grammar put around a name (brackets, angle brackets, quotes, braces, parentheses are
+    # sub-delims and stay): wrapping is not "the way an IP literal is spelled" - a wrapped reg-name / IPv4 text is rejected
+    for l_, r_ in (("[", "]"), ("<", ">"), ("{", "}"), ('"', '"'), ("|", "|"), ("\\", "\\"), ("^", "^"), ("`", "`"), (" ", " "), ("/", "/"), ("[", "]:80"), ("[[", "]]")):
+        for inner in ("example.com", "EVIL.example", "127.0.0.1", "a", "", "bücher.example", "a_b", "xn--9ca.com", "1", "localhost."):
+            h = l_ + inner + r_
+            for route, fn in (("build_host", lambda: URL.build(scheme="http", host=h)), ("with_host", lambda: base.with_host(h)), ("build_host_port", lambda: URL.build(scheme="https", host=h, port=444, user="u"))):
+                r = guarded(fn)
+                ctx.ev((route, "wrapped", l_, inner[:3], "exc" if is_exc(r) else "ok"))
+                case = {"route": route, "host": h}
+                if not is_exc(r):
+                    ctx.fail("illegal_host_char_accepted", case, f"raw_host={guarded(lambda: r.raw_host)!r} str={guarded(str, r)!r}")
+                elif r.type != "ValueError" and not r.type.startswith("Unicode") and r.type not in ("IDNAError", "InvalidCodepoint"):
+                    ctx.fail("wrong_exception", case, f"{r!r}")
+                else:
+                    ctx.count("rejected_ok")
     # the same alphabet inside NON-ASCII hosts (the IDNA route), with the tails that send the encoded text down the IP-literal
     # branch afterwards (a final digit, a ':'): an illegal ASCII character must be rejected on every route through the encoder
     for o in range(128):
